@@ -113,7 +113,7 @@ pub const PLACEHOLDERS: [&str; 22] = [
 
 fn unsupported_leaf(rng: &mut Rng) -> String {
     rng.pick(&[
-        "-user bob", "-group staff", "-regex x.*", "-iregex x", "-lname x", "-ilname x", "-samefile f", "-anewer f",
+        "-user bob", "-group staff", "-user root", "-group root", "-user 0", "-regex x.*", "-iregex x", "-lname x", "-ilname x", "-samefile f", "-anewer f",
         "-cnewer f", "-mnewer f", "-fstype ext4", "-nouser", "-nogroup", "-ls", "-fls f.out", "-prune",
         "-printf \"%d\\n\"", "-printf '%M %p\\n'", "-fprintf o.txt '%l'",
     ])
